@@ -541,10 +541,39 @@ def body_emd(cfg, darsia):
         I2 = darsia.Image(b.copy(), dimensions=list(dims), scalar=True)
         E = darsia.EMD()
         if not S.instrumented():
-            d = E(I1, I2)
-            d2 = E(darsia.Image(3.0 * a, dimensions=list(dims), scalar=True), darsia.Image(3.0 * b, dimensions=list(dims), scalar=True))
+            # plain import: real OpenCV; the signatures handed to it are captured on the way
+            class CapCV2:
+                def __getattr__(self, nm):
+                    return getattr(real_cv2, nm)
+
+                @staticmethod
+                def EMD(s1, s2, dist, *aa, **kk):
+                    captured.append((np.array(s1, dtype=float), np.array(s2, dtype=float), dist))
+                    return real_cv2.EMD(s1, s2, dist, *aa, **kk)
+
+            emd.cv2 = CapCV2()
             S.set_rtol(1e-5)
+            d = E(I1, I2)
+            s1, s2, flag = captured[0]
+            ok, cnt = [], 0
+            for r in range(shape[0]):
+                for c_ in range(shape[1]):
+                    ok.append(S.eq(list(s1[cnt]), [a[r, c_] / tot_a, c_ * h[1], r * h[0]]))
+                    ok.append(S.eq(list(s2[cnt]), [b[r, c_] / tot_a, c_ * h[1], r * h[0]]))
+                    cnt += 1
+            S.claim("signatures_carry_normalised_mass_and_physical_coordinates", S.and_(np.shape(s1) == (n, 3), S.and_(ok), flag == real_cv2.DIST_L2))
+            d2 = E(darsia.Image(3.0 * a, dimensions=list(dims), scalar=True), darsia.Image(3.0 * b, dimensions=list(dims), scalar=True))
             S.claim("emd_scales_linearly_with_the_masses", S.eq(d2, 3.0 * d))
+            # single-cell moves with the real OpenCV solver: mass times Euclidean distance in physical units
+            okm = []
+            for (r0, c0), (r1, c1) in (((0, 0), (shape[0] - 1, shape[1] - 1)), ((0, shape[1] - 1), (0, 0)), ((shape[0] - 1, 0), (0, 0))):
+                p_, q_ = np.zeros(shape), np.zeros(shape)
+                p_[r0, c0] = 2.0
+                q_[r1, c1] = 2.0
+                dm = E(darsia.Image(p_, dimensions=list(dims), scalar=True), darsia.Image(q_, dimensions=list(dims), scalar=True))
+                want = 2.0 * h[0] * h[1] * float(np.hypot((r1 - r0) * h[0], (c1 - c0) * h[1]))
+                okm.append(S.eq(dm, want))
+            S.claim("single_cell_move_costs_mass_times_euclidean_distance", S.and_(okm))
             return
         d = E(I1, I2)
         s1, s2, flag = captured[0]
